@@ -121,12 +121,23 @@ struct PqCase {
         if (GuardRemove && r.empty())
           break;
         size_t before = r.count(x);
-        // unguarded variant: the library may spin forever here; give up fast
-        if (!GuardRemove && r.empty())
-          alarm(3);
-        bool ret = q.remove(x);
-        if (!GuardRemove && r.empty())
-          alarm(30);
+        bool ret = false;
+        if (!GuardRemove && r.empty()) {
+          // remove() of an absent value from an EMPTY queue: the header
+          // states no precondition and returns "was it removed"; the
+          // unchanged library dereferences the empty container here.
+          if (!survives([&]() { ret = q.remove(x); }, 3, 30))
+            sx::fail(C + (survive_sig() == SIGALRM
+                              ? ":remove-on-empty-never-returns"
+                              : ":remove-on-empty-dies"),
+                     "%s on an empty queue %s", nm,
+                     survive_sig() == SIGALRM
+                         ? "did not return within 3 s"
+                         : survive_sig() == SIGABRT ? "aborts (failed assert)"
+                                                    : "faults (SIGSEGV)");
+        } else {
+          ret = q.remove(x);
+        }
         if (ret != (before > 0))
           sx::fail(C + ":remove-return", "after %s: returned %d, %zu copies "
                                          "were present",
